@@ -346,11 +346,19 @@ func init() {
 				case 1:
 					p.Via = "cli-gc"
 				}
+				if p.Via != "pkg" && rng.Intn(2) == 0 {
+					// a repository of a few hundred keys on the real badger store (its iterator prefetches 100 items)
+					p.N = 25 + rng.Intn(25)
+					p.Refs = 2 + rng.Intn(4)
+				}
 				l.Add("repo", p, 0)
 			}
 			// gc = transaction clean-up + prune: repositories with an open transaction holding refs
 			for i := 0; i < l.N(8, 300); i++ {
 				l.Add("gc", c12Params{N: 3 + rng.Intn(8), BaseRows: 4, Refs: 6 + rng.Intn(6), Via: "cli-gc"}, 0)
+				if i%2 == 0 {
+					l.Add("prune-large", c12Params{N: 30 + rng.Intn(30), BaseRows: []int{4, 300}[rng.Intn(2)], Refs: 2 + rng.Intn(3), Via: "cli"}, 0)
+				}
 			}
 			return l.Cases
 		},
